@@ -160,7 +160,33 @@ def run_op(L, fn, otyp, ityps, extras, vals, extra_vals, pattern):
     return bufs[-1].raw[:meaningful(L, otyp)]
 
 
+HASH_FNS = [("embedded_pairing_bls12_381_g1affine_from_hash", "g1a", 48), ("embedded_pairing_bls12_381_g2affine_from_hash", "g2a", 96),
+            ("embedded_pairing_lqibe_compute_id_from_hash", "g1a", 48), ("vk_g1affine_from_hash", "g1a", 48), ("vk_g2affine_from_hash", "g2a", 96)]
+
+
+def hash_strings(seed, n):
+    out = [b"\0" * n, b"\xff" * n, bytes(range(1, n + 1))]
+    out += [alpha.filler(seed, "c18hash%d" % n, i, 8 * n).to_bytes(n, "big") for i in range(3)]
+    return out
+
+
+def eval_hash_in_place(case):
+    """hash-to-curve with the hash bytes stored at the start of the result object itself (the interface does not forbid it)"""
+    L = ffi.lib(case["cfg"])
+    fn, otyp = case["fn"], case["otyp"]
+    h = bytes.fromhex(case["hash"])
+    osize = tsize(L, otyp)
+    r0 = L.out(fn, osize, h)[:meaningful(L, otyp)]
+    b = L.buf(osize, h + b"\xCD" * (osize - len(h)))
+    L.f(fn)(b, b)
+    if b.raw[:meaningful(L, otyp)] != r0:
+        return ["%s %s with the hash stored in the result object differs from the call with a separate buffer" % (case["cfg"], fn)]
+    return []
+
+
 def eval_case(case):
+    if case.get("sub") == "hash-in-place":
+        return eval_hash_in_place(case)
     L = ffi.lib(case["cfg"])
     fn, otyp, ityps, extras = case["fn"], case["otyp"], case["ityps"], case["extras"]
     vals = [bytes.fromhex(v) for v in case["vals"]]
@@ -195,6 +221,12 @@ def eval_case(case):
 
 
 def cases_for(L, cfg, seed, tier):
+    for fn, otyp, n in HASH_FNS:
+        if not L.has(fn):
+            yield None, "missing:" + fn
+            continue
+        for h in hash_strings(seed, n):
+            yield {"sub": "hash-in-place", "cfg": cfg, "fn": fn, "otyp": otyp, "hash": h.hex()}, None
     for fn, otyp, ityps, extras in table():
         if not L.has(fn):
             yield None, "missing:" + fn
